@@ -40,7 +40,10 @@ def run(ck):
     ])
     ck.note('not judged: specs python_types cannot generate or import (union-tag route attributes of a namespace the route module '
             'does not import), a route ERROR type without fields (docstring generation crashes), specs python_client '
-            'refuses loudly (route argument of another kind, fmt_func name conflict inside a namespace), the _to_file twin')
+            'refuses loudly (route argument of another kind, fmt_func name conflict inside a namespace), the _to_file twin; '
+            'names python_types itself cannot carry (fields with a leading underscore, fields / routes spelled like a capitalised '
+            'Python keyword, union tags that are not lower_snake_case) are kept out of the seeds; nested struct values the '
+            'generated classes refuse as field values (any struct with a field name that is not lower_snake_case) are not passed')
     return ck.finish(rule=dp.RULE)
 
 
